@@ -84,6 +84,8 @@ impl FrameWalker for Mock {
         }
     }
     fn clear_caller_register(&mut self, name: &str) {
+        // clearing a register the context does not have has no effect (a real context cannot even name it)
+        if !matches!(name, "rax" | "rbx" | "rsp" | "rbp" | "rip") { return; }
         self.set.remove(name);
         if !self.cleared.iter().any(|x| x == name) {
             self.cleared.push(name.to_string());
@@ -213,6 +215,8 @@ fn main() {
                     "Ldrbx" => "$rbx:",
                     "Lbrbx" => "rbx:",
                     "Ldrbp" => "$rbp:",
+                    "Ljcfa" => "$.cfa:",
+                    "Ljra" => "$.ra:",
                     _ => panic!("label"),
                 }
             };
